@@ -228,6 +228,14 @@ def single_lattice(rng, tier):
                     upper=dict(model='6node', vf_coolant=0.4,
                                convection_factor=0.8))
     one('opt-dd-unequal-walls-regions', t, gap_model='flow')
+    # region boundaries written with seven decimals (values converted from
+    # other units look like this), power in every region
+    t = add_regions(bundle_type(2), L,
+                    lower=dict(model='simple', vf_coolant=0.3),
+                    upper=dict(model='simple', vf_coolant=0.4),
+                    rods=[0.1234567, 0.4141597])
+    one('opt-regions-seven-decimals', t, gap_model='flow', ncell=2,
+        power_order=1)
     # the low-flow convection approximation on a double duct with unequal
     # walls, heat crossing the outer wall
     one('opt-dd-unequal-walls-lowflow-approx',
